@@ -143,6 +143,8 @@ Proof.
       clearbody f; vm_compute;
       repeat match goal with |- context [f ?k] => destruct (f k) end; reflexivity.
   - rewrite tb_or by lia. rewrite Z.land_spec.
-    rewrite (tb_const_hi perm_mask 32 i) by (split; [split; [discriminate|reflexivity]|lia] || lia).
+    assert (Hpm : 0 <= perm_mask < 2 ^ 32)
+      by (unfold perm_mask; change (2 ^ 32) with 4294967296; lia).
+    rewrite (tb_const_hi perm_mask 32 i Hpm) by lia.
     destruct (Z.ltb_spec i 32); [lia|]. rewrite !andb_false_r. reflexivity.
 Qed.
